@@ -168,6 +168,27 @@ theorem C17_v2_roundtrip_partial {cx : NumCtx} {cfg : Config Rat} (hc : CfgOK cf
     _ ≤ r.gmAmount * (ps.poolValue / ps.supply) := hval
     _ ≤ la * ps.longPrice + sa * ps.shortPrice := by rw [hv]; linarith
 
+/-- **round trip in closed form** (any sign of the impact): withdrawing exactly the GM just minted returns
+    `(1 − withdraw fee factor) × (Σ amount·(1 − deposit fee factor)·price + credited impact)` — so the round trip profits
+    exactly when the credited positive impact outweighs the three fee factors. -/
+theorem C17_v2_roundtrip_closed_form {cx : NumCtx} {cfg : Config Rat} {ps : Pool Rat} (hp : PoolPos ps)
+    {lk sk : String} {s s1 s2 : State Rat} {la sa : Rat} {r r2 : LPResult Rat} {tag : String}
+    (hdep : deposit (ratOps pw) cx cfg ps lk sk s la sa = (.ok (r, tag), s1))
+    (hwd : withdraw (ratOps pw) cx cfg ps lk sk s1 (some r.gmAmount) = (.ok r2, s2)) :
+    let total := la * ps.longPrice + sa * ps.shortPrice
+    r2.longAmount * ps.longPrice + r2.shortAmount * ps.shortPrice
+      = (1 - cfg.withdrawFeeNeg) *
+        (sideValue cfg ps la ps.longPrice ps.shortPrice (r.priceImpactUsd * (la * ps.longPrice) / total)
+         + sideValue cfg ps sa ps.shortPrice ps.longPrice (r.priceImpactUsd * (sa * ps.shortPrice) / total)) := by
+  intro total
+  obtain ⟨_, _, hm, _, _, _⟩ := Gmx2.deposit_ok hdep
+  obtain ⟨_, _, _, _, _, hv, _, _⟩ := mintAmount_ok hp hm
+  obtain ⟨_, _, ho, _, _, _⟩ := Gmx2.withdraw_ok hwd
+  obtain ⟨_, _, _, _, _, _, _, hout⟩ := outputAmount_ok ho
+  simp only [Option.getD_some] at hout
+  rw [hout, ← hv]
+  ring
+
 /-! ### no more shares can be redeemed than are held; the holding never becomes negative -/
 
 /-- **over-redemption is rejected and changes nothing** — every arithmetic context and power function. -/
